@@ -152,7 +152,7 @@ def dispatch_part(ctx, sc, rnd, jobs, labels, picked):
     """the decoder's own state transitions (PYASN1_VERIF_TRACE hook) against spec/DecoderSM.tla"""
     check_dispatch_model(ctx, sc)
     check_dispatch_proof(ctx, sc)
-    per = 10 if ctx.quick else 40
+    per = 10 if ctx.quick else 30
     sm, meta = [], {}
     for job in jobs:
         bid, rules, T, streaming, inputs = job
@@ -203,16 +203,17 @@ def dispatch_part(ctx, sc, rnd, jobs, labels, picked):
     ci = [i for i in rows if ev[i] == 1][1]
     x = list(ev); x[ci + 8] += 1
     st.append({'id': 10 ** 8 + 5, 'ev': x})                              # a member call starts one octet late
-    with open(outp, 'a') as f:
-        for t in st:
-            f.write(json.dumps(t, separators=(',', ':')) + '\n')
-    tlc.write_cfg(sc.file('tsm.cfg'), spec='TraceSpec')
-    r = tlc.run(os.path.join(tlc.SPEC, 'Trace_DecoderSM.tla'), sc.file('tsm.cfg'), sc, env={'TRACE_FILE': outp}, timeout=3000,
-                heap='16g')
-    ctx.add_tlc('dispatch trace acceptor', r)
-    want = nev + sum(len(t['ev']) // W for t in st) + len(traces) + len(st)
-    if not r.ok or r.distinct != want:
-        raise core.Machinery('dispatch acceptor failed: distinct %s want %s %s\n%s' % (r.distinct, want, r.errors[:3], r.out[-1500:]))
+    os.remove(outp)
+    try:
+        printed = tlc.run_traces(ctx, sc, 'Trace_DecoderSM', traces + st, 'dispatch trace acceptor', nev=lambda t: len(t['ev']) // W,
+                                 max_events=250000, heap='16g')
+    except tlc.AcceptorFailure as e:
+        raise core.Machinery('dispatch acceptor failed: %s' % e)
+
+    class _R:      # noqa
+        pass
+    r = _R()
+    r.printed = printed
     rej = [q for q in r.printed if isinstance(q, list) and len(q) == 4 and q[0] == 'REJECT']
     if {q[1] for q in rej if q[1] >= 10 ** 8} != {10 ** 8 + i for i in range(6)}:
         raise core.Machinery('dispatch acceptor self-test failed: %s' % [q for q in rej if q[1] >= 10 ** 8])
